@@ -48,6 +48,13 @@ class BadPath(Exception):
 
 # ----------------------------------------------------------------------------- paths
 
+def supports_contents(expr):
+    """Whether append/insert are allowed on the expression (everything but commands other than \\item) - stated
+    here from the documented behaviour, not read off a private method of the implementation."""
+    from TexSoup import data as D
+    return not isinstance(expr, D.TexCmd) or expr.name == 'item'
+
+
 def parse_path(w):
     if w == 'r':
         return []
@@ -548,7 +555,7 @@ def gen_op(rng, soup):
     sloppy = rng.random() < 0.1
     kind = rng.choice(['del', 'del', 'rep', 'rep', 'ins', 'ins', 'app', 'ren', 'str', 'args'])
     if kind in ('ins', 'app') or not targets:
-        good = [c for c in containers if sloppy or c[2]._supports_contents()]
+        good = [c for c in containers if sloppy or supports_contents(c[2])]
         path, ln, x = rng.choice(good or containers)
         c = show_path(path)
         if kind == 'app':
@@ -1546,7 +1553,7 @@ def gen_transplant(rng, source, tail=3, allow_copy=True, prefix=2):
     for _ in range(rng.randint(0, prefix)):
         _track(soup, ops, gen_op(rng, soup))
     targets, containers = enum_tree(soup)
-    good = [c for c in containers if c[2]._supports_contents()] or containers
+    good = [c for c in containers if supports_contents(c[2])] or containers
     kind = rng.choice(['app'] * 6 + ['ins'] * 2 + ['rep'] * 2)
     if kind == 'rep' and not targets:
         kind = 'app'
@@ -1613,7 +1620,7 @@ def transplant_pairs(source, rng=None, cap=None):
     T = common.impl()
     base = T.TexSoup(source)
     targets, containers = enum_tree(base)
-    good = [c for c in containers if c[2]._supports_contents()]
+    good = [c for c in containers if supports_contents(c[2])]
     if cap is not None and len(good) > cap:
         good = [good[0]] + (rng or __import__('random').Random(0)).sample(good[1:], cap - 1)
     out = []
